@@ -235,56 +235,92 @@ pub proof fn lemma_texts_none<V>(ents: Seq<(PathBuf, Vec<V>)>, s: Seq<char>, n: 
     }
 }
 
-/// E4: whatever duplicate-free enumeration `ents` of the map the loop saw, `texts_order` lists exactly the files
-/// with text `s`, each once, and `texts_concat` is the concatenation of their lists in that order
-pub proof fn lemma_texts<V>(ents: Seq<(PathBuf, Vec<V>)>, m: Map<PathBuf, Vec<V>>, s: Seq<char>, n: int)
+// E4: whatever duplicate-free enumeration `ents` of the map the loop saw, `texts_order` lists exactly the files with
+// text `s`, each once, and `texts_concat` is the concatenation of their lists in that order. (One lemma per fact
+// and per element: stated together as quantified facts they form a matching loop.)
+
+/// every member of `texts_order` is the key of one of the first `n` entries, and has the text `s`
+pub proof fn lemma_texts_src<V>(ents: Seq<(PathBuf, Vec<V>)>, s: Seq<char>, n: int, j: int)
+    requires
+        0 <= n <= ents.len(),
+        0 <= j < texts_order(ents, s, n).len(),
+    ensures
+        exists|i: int| 0 <= i < n && (#[trigger] ents[i]).0 == texts_order(ents, s, n)[j] && path_text(ents[i].0) == s,
+    decreases n,
+{
+    if n > 0 {
+        let o0 = texts_order(ents, s, n - 1);
+        if path_text(ents[n - 1].0) == s && j == o0.len() {
+            assert(0 <= n - 1 < n && ents[n - 1].0 == texts_order(ents, s, n)[j]);
+        } else {
+            lemma_texts_src(ents, s, n - 1, j);
+            let i = choose|i: int| 0 <= i < n - 1 && (#[trigger] ents[i]).0 == o0[j] && path_text(ents[i].0) == s;
+            assert(0 <= i < n && ents[i].0 == texts_order(ents, s, n)[j]);
+        }
+    }
+}
+
+/// every one of the first `n` entries with the text `s` has its key in `texts_order`
+pub proof fn lemma_texts_member<V>(ents: Seq<(PathBuf, Vec<V>)>, s: Seq<char>, n: int, i: int)
+    requires
+        0 <= i < n <= ents.len(),
+        path_text(ents[i].0) == s,
+    ensures
+        exists|j: int| 0 <= j < texts_order(ents, s, n).len() && #[trigger] texts_order(ents, s, n)[j] == ents[i].0,
+    decreases n,
+{
+    let o = texts_order(ents, s, n);
+    if i == n - 1 {
+        assert(o[o.len() - 1] == ents[i].0);
+    } else {
+        lemma_texts_member(ents, s, n - 1, i);
+        let o0 = texts_order(ents, s, n - 1);
+        let j = choose|j: int| 0 <= j < o0.len() && #[trigger] o0[j] == ents[i].0;
+        assert(o[j] == ents[i].0);
+    }
+}
+
+/// no file twice
+pub proof fn lemma_texts_nodup<V>(ents: Seq<(PathBuf, Vec<V>)>, m: Map<PathBuf, Vec<V>>, s: Seq<char>, n: int, j: int, k: int)
+    requires
+        entries_raw(ents, m),
+        0 <= n <= ents.len(),
+        0 <= j < k < texts_order(ents, s, n).len(),
+    ensures
+        texts_order(ents, s, n)[j] != texts_order(ents, s, n)[k],
+    decreases n,
+{
+    if n > 0 {
+        let o0 = texts_order(ents, s, n - 1);
+        if path_text(ents[n - 1].0) == s && k == o0.len() {
+            // `o[j]` is the key of an EARLIER entry; the keys of an enumeration are pairwise different
+            lemma_texts_src(ents, s, n - 1, j);
+            let i = choose|i: int| 0 <= i < n - 1 && (#[trigger] ents[i]).0 == o0[j] && path_text(ents[i].0) == s;
+            assert(ents[i].0 != ents[n - 1].0);
+        } else {
+            lemma_texts_nodup(ents, m, s, n - 1, j, k);
+        }
+    }
+}
+
+/// what `extend` accumulated is the concatenation of the lists of exactly these files
+pub proof fn lemma_texts_concat<V>(ents: Seq<(PathBuf, Vec<V>)>, m: Map<PathBuf, Vec<V>>, s: Seq<char>, n: int)
     requires
         entries_raw(ents, m),
         0 <= n <= ents.len(),
     ensures
-        forall|j: int| 0 <= j < texts_order(ents, s, n).len() ==> exists|i: int| 0 <= i < n && (#[trigger] ents[i]).0 == #[trigger] texts_order(ents, s, n)[j] && path_text(ents[i].0) == s,
-        forall|i: int| 0 <= i < n && path_text((#[trigger] ents[i]).0) == s ==> exists|j: int| 0 <= j < texts_order(ents, s, n).len() && #[trigger] texts_order(ents, s, n)[j] == ents[i].0,
-        forall|j: int, k: int| 0 <= j < k < texts_order(ents, s, n).len() ==> #[trigger] texts_order(ents, s, n)[j] != #[trigger] texts_order(ents, s, n)[k],
         concat_lists(m, texts_order(ents, s, n)) == texts_concat(ents, s, n),
     decreases n,
 {
     if n > 0 {
-        lemma_texts(ents, m, s, n - 1);
+        lemma_texts_concat(ents, m, s, n - 1);
         let o0 = texts_order(ents, s, n - 1);
         let o = texts_order(ents, s, n);
         let f = ents[n - 1].0;
         if path_text(f) == s {
-            assert(o == o0.push(f));
             assert(o.drop_last() =~= o0);
             assert(o.last() == f);
             assert(m[f] == ents[n - 1].1);
-            assert forall|j: int| 0 <= j < o.len() implies exists|i: int| 0 <= i < n && (#[trigger] ents[i]).0 == #[trigger] o[j] && path_text(ents[i].0) == s by {
-                if j < o0.len() {
-                    let i = choose|i: int| 0 <= i < n - 1 && (#[trigger] ents[i]).0 == o0[j] && path_text(ents[i].0) == s;
-                    assert(0 <= i < n && ents[i].0 == o[j]);
-                } else {
-                    assert(ents[n - 1].0 == o[j]);
-                }
-            }
-            assert forall|i: int| 0 <= i < n && path_text((#[trigger] ents[i]).0) == s implies exists|j: int| 0 <= j < o.len() && #[trigger] o[j] == ents[i].0 by {
-                if i < n - 1 {
-                    let j = choose|j: int| 0 <= j < o0.len() && #[trigger] o0[j] == ents[i].0;
-                    assert(o[j] == ents[i].0);
-                } else {
-                    assert(o[o.len() - 1] == ents[i].0);
-                }
-            }
-            assert forall|j: int, k: int| 0 <= j < k < o.len() implies #[trigger] o[j] != #[trigger] o[k] by {
-                if k == o.len() - 1 {
-                    // `o[j]` is the key of an EARLIER entry; the keys of an enumeration are pairwise different
-                    let i = choose|i: int| 0 <= i < n - 1 && (#[trigger] ents[i]).0 == o0[j] && path_text(ents[i].0) == s;
-                    assert(ents[i].0 != ents[n - 1].0);
-                } else {
-                    assert(o0[j] != o0[k]);
-                }
-            }
-        } else {
-            assert(o == o0);
         }
     }
 }
@@ -311,15 +347,19 @@ pub proof fn lemma_printable<V>(out: Map<String, Vec<V>>, report: Map<PathBuf, V
     }
     assert forall|s: String| #[trigger] out.contains_key(s) implies exists|order: Seq<PathBuf>| #[trigger] files_with_text(report, s@, order) && out[s]@ == concat_lists(report, order) by {
         let n = ents.len() as int;
-        lemma_texts(ents, report, s@, n);
         let order = texts_order(ents, s@, n);
+        lemma_texts_concat(ents, report, s@, n);
         assert forall|j: int| 0 <= j < order.len() implies report.contains_key(#[trigger] order[j]) && path_text(order[j]) == s@ by {
+            lemma_texts_src(ents, s@, n, j);
             let i = choose|i: int| 0 <= i < n && (#[trigger] ents[i]).0 == order[j] && path_text(ents[i].0) == s@;
             assert(report.contains_key(ents[i].0));
         }
+        assert forall|j: int, k: int| 0 <= j < k < order.len() implies #[trigger] order[j] != #[trigger] order[k] by {
+            lemma_texts_nodup(ents, report, s@, n, j, k);
+        }
         assert forall|f: PathBuf| report.contains_key(f) && #[trigger] path_text(f) == s@ implies exists|j: int| 0 <= j < order.len() && #[trigger] order[j] == f by {
             let i = choose|i: int| 0 <= i < ents.len() && (#[trigger] ents[i]).0 == f;
-            assert(path_text(ents[i].0) == s@);
+            lemma_texts_member(ents, s@, n, i);
         }
         assert(files_with_text(report, s@, order));
     }
@@ -381,13 +421,15 @@ verif_map_extend(&mut $m, verif_path_text(&$p), $v)
             forall|s: String| #[trigger] result@.contains_key(s) ==> result@[s]@ == texts_concat(ents, s@, it.index@ as int), // [V8p.inv.lists_so_far]
             it.seq() == ents,
             entries_raw(ents, report@),
-//@edit rule=ghost before=<<verif_map_extend(>>
+//@edit rule=ghost after=<<entries_raw(ents, report@), {>>
+        // (anchored on the loop head above, not on the statement of the body: a changed body is verified, not lost)
         let ghost result0 = result@;
         let ghost n = it.index@ as int;
-//@edit rule=ghost after=<<verif_map_extend(&mut $m, verif_path_text(&$p), $v);>>
+//@edit rule=ghost before=<<} result }>>
         proof {
+            // one more entry: its text is a key now, its list is appended under that text, every other key is untouched
             let t = path_text(ents[n].0);
-            assert forall|s: String| #[trigger] result@.contains_key(s) <==> exists|i: int| 0 <= i < n + 1 && path_text((#[trigger] ents[i]).0) == s@ by {
+            assert forall|s: String| #[trigger] result@.contains_key(s) <==> exists|i: int| 0 <= i < n + 1 && path_text((#[trigger] ents[i]).0) == s@ by { // [V8p.step.text_of_this_file_becomes_a_key]
                 if result0.contains_key(s) {
                     let i = choose|i: int| 0 <= i < n && path_text((#[trigger] ents[i]).0) == s@;
                     assert(0 <= i < n + 1 && path_text(ents[i].0) == s@);
@@ -396,7 +438,7 @@ verif_map_extend(&mut $m, verif_path_text(&$p), $v)
                     assert(0 <= n < n + 1 && path_text(ents[n].0) == s@);
                 }
             }
-            assert forall|s: String| #[trigger] result@.contains_key(s) implies result@[s]@ == texts_concat(ents, s@, n + 1) by {
+            assert forall|s: String| #[trigger] result@.contains_key(s) implies result@[s]@ == texts_concat(ents, s@, n + 1) by { // [V8p.step.list_appended_under_its_text_nothing_else_changed]
                 if s@ == t {
                     if !result0.contains_key(s) {
                         lemma_texts_none(ents, s@, n);
@@ -421,6 +463,15 @@ verif_map_extend(&mut $m, verif_path_text(&$p), $v)
     ensures
         // exit status 0 through this function means no error-severity diagnostic
         r is Ok ==> !exists_error(vmap(violations@)), // [V8.post.ok_implies_no_error]
+        // C11 "and exits 0 otherwise ... severity=warning|info|hint still print their diagnostics but never fail the
+        // run": the function fails (`Err`, a non-zero exit status of `main`) ONLY if stderr did not take the complete
+        // report keyed by printable paths - never because of what the diagnostics or the file names are. With
+        // `V8.post.exit1_only_if_error`: no error-severity diagnostic and a stderr that can be written => `Ok`.
+        r is Err ==> stderr_report_fails(vmap(violations@)), // [V8.post.err_only_if_stderr_write_fails]
+        // C11 "whenever there are diagnostics, stderr is one JSON object mapping each file path to its list ... every
+        // violation appears in it exactly once": `Ok` means the complete report (`report_is`), keyed by printable
+        // paths (`is_printable`), was handed to the writer, and written
+        r is Ok ==> stderr_report_written(vmap(violations@)), // [V8.post.ok_means_printable_report_written]
 //@edit rule=ghost before=<<let mut has_error_severity>>
     broadcast use axiom_pathbuf_key_model;
     let ghost viol = vmap(violations@);
@@ -460,6 +511,7 @@ verif_map_extend(&mut $m, verif_path_text(&$p), $v)
             lemma_flag(violations@, ents, has_error_severity);
         }
     }
+    let ghost rep = diagnostics@;
 //@macro rule=E1 name=writeln to=<<verif_writeln(&mut stderr)>>
 //@edit rule=ghost before=<<process::exit(1)>>
         // the only call of `exit(1)`: reachable only if an error-severity violation exists
@@ -490,6 +542,10 @@ fn main_run_and_report(context: ValidationContext, sync_validators: Vec<Box<dyn 
         r is Ok ==> validators::run_result(Arc::new(context), sync_validators, async_validators) is Some, // [V8g.post.run_err_propagates]
         // C11: exit status 0 means no error-severity diagnostic among what `run` returned
         r is Ok ==> !exists_error(validators::run_result(Arc::new(context), sync_validators, async_validators).unwrap()), // [V8g.post.ok_implies_no_error]
+        // C11 "and exits 0 otherwise": this stage fails ONLY if a validator returned `Err` (C13) or stderr did not take
+        // the report of what `run` returned; in particular never because every diagnostic is a warning / info / hint,
+        // and never because of the name of a file
+        r is Err ==> (validators::run_result(Arc::new(context), sync_validators, async_validators) matches Some(v) ==> stderr_report_fails(v)), // [V8g.post.err_only_if_run_failed_or_stderr_write_fails]
 //@tail
     Ok(())
 //@edit rule=ghost before=<<let violations = validators::run(>>
